@@ -48,16 +48,27 @@ def _pyb_job(job):
     r = random.Random('c16/%d/%d' % (seed, k))
     g = G.Gen(r, G.Profile(max_decls=5))
     mods = [g.module() for _ in range(r.randint(1, 3))]
+    # most real projects live in a namespace: wrap the content in a namespace chain of depth 0-3
+    depth = r.choice([0, 1, 1, 2, 3])
+    chain = [r.choice(['gtsam', 'ns1', 'geo', 'outer']) + ('' if i == 0 else str(i)) for i in range(depth)]
+
+    def nest(m, names):
+        for n in reversed(names):
+            m = [('ns', n, m)]
+        return m
+    mods = [nest(m, chain) for m in mods]
     texts = [G.text(G.tokens(m)) for m in mods]
     stems = ['main'] + ['part%d' % i for i in range(1, len(texts))]
     it0 = pc.impl_items(texts[0])
     if it0[0] != 'ok':
         return ('skip', it0[0])
-    paths = pc.ns_paths(it0[1])
-    top = r.choice([['']] + [[''] + list(p) for p in paths[:3]])
-    boost = r.random() < 0.5
+    # option lattice point k: top namespace depth x spelling x --ignore x serialization
+    tops = [['']] + [[''] + chain[:i] for i in range(1, depth + 1)]
+    top = tops[k % len(tops)]
+    boost = (k // 2) % 2 == 0
     names = pc._cpp_names_impl(it0[1])
-    ign = r.choice([None, [], ['no::Such']] + ([[r.choice(names)]] if names else []))
+    ign = [None, [], ['no::Such'], [r.choice(names)] if names else []][(k // 3) % 4]
+    lead = (k % 2 == 1)
     d = scratch()
     res = {'k': k, 'top': top, 'boost': boost, 'ignore': ign, 'texts': texts}
     try:
@@ -75,6 +86,8 @@ def _pyb_job(job):
         res['api_subs'] = api_subs
         # ---- scripts ----
         topstr = '::'.join(top[1:])
+        if topstr and lead:
+            topstr = '::' + topstr      # the other documented spelling of the same namespace
         common_args = ['--module_name', 'mymod', '--template', tpl, '--top_module_namespaces', topstr]
         if boost:
             common_args.append('--use-boost-serialization')
@@ -105,7 +118,7 @@ def run(rep, tier, seed, replay=None, proof_ok=True):
                             'subprocesses; structure of the main file (initialiser declarations/calls in order) and of '
                             'each submodule file vs the model; non-trivial = run with >= 1 additional file')
     q = pc.detect_pquirks()
-    n = 24 if tier == 'quick' else 400
+    n = 36 if tier == 'quick' else 600
     with mp.get_context('fork').Pool(12) as pool:
         results = pool.map(_pyb_job, [(k, seed) for k in range(n)], chunksize=1)
     model = common.Model()
@@ -123,9 +136,15 @@ def run(rep, tier, seed, replay=None, proof_ok=True):
             # (a) API main file vs model, and its structure
             am = r['api_main']
             if am[0] == 'ok':
+                # the C16 view of the model: initialiser declarations, calls, module definition
                 ans = model.ask('pybind', [q, cfg, pc.TPL, 'mymod', [stems[1:]], r['items'][0]])
-                if ans != 'ok ' + sexp.dumps(am[1]):
-                    shown += report(rep, shown, 'main file differs from the model', r, am[1][:3000], ans[:3000])
+                if ans.startswith('ok '):
+                    mt = sexp.loads(ans[3:])
+                    v = lambda t: ([l for l in t.split('\n') if l.startswith('void ') and l.endswith('(py::module_ &);')],
+                                   [l.strip() for l in t.split('\n') if l.strip().endswith('(m_);')],
+                                   [l for l in t.split('\n') if l.startswith('PYBIND11_MODULE(')])
+                    if v(mt) != v(am[1]):
+                        shown += report(rep, shown, 'main file plumbing differs from the model', r, repr(v(am[1])), repr(v(mt)))
                 decls = [l for l in am[1].split('\n') if l.startswith('void ') and l.endswith('(py::module_ &);')]
                 calls = [l.strip() for l in am[1].split('\n') if l.strip().endswith('(m_);')]
                 if decls != ['void %s(py::module_ &);' % s for s in stems[1:]] or \
@@ -135,9 +154,15 @@ def run(rep, tier, seed, replay=None, proof_ok=True):
             # (b) each additional file through the API vs the model
             for s, t, a, it in zip(stems[1:], texts[1:], r['api_subs'], r['items'][1:]):
                 if a[0] == 'ok' and it[0] == 'ok':
-                    ans = model.ask('pybind', [q, cfg, pc.TPL, s, [], it[1]])
-                    if ans != 'ok ' + sexp.dumps(a[1]):
-                        shown += report(rep, shown, 'submodule file differs from the model', r, a[1][:3000], ans[:3000])
+                    # containing exactly what wrapping its text alone yields (implementation vs implementation)
+                    alone = pc.impl_wrap(t, (r['top'], cfg[1], r['boost']), 'other_name', ['x'])
+                    import extract_pybind as E
+                    content = lambda txt: (E.records(txt),
+                                           [l for l in txt.split('\n') if l.startswith('#include') or
+                                            l.startswith('BOOST_CLASS_EXPORT') or l.startswith('typedef ')])
+                    if alone[0] == 'ok' and content(alone[1]) != content(a[1]):
+                        shown += report(rep, shown, 'submodule content differs from wrapping the text alone', r,
+                                        repr(content(a[1]))[:3000], repr(content(alone[1]))[:3000])
                     if ('void %s(py::module_ &m_)' % s) not in a[1]:
                         shown += report(rep, shown, 'submodule file does not define its initialiser', r, a[1][:2000], None)
             # (c) scripts vs API
